@@ -38,9 +38,10 @@ def splitVariant (name : String) : String × (Bool × Bool) :=
   else if name.endsWith "+lw" then (name.dropRight 3, (true, true))   -- guard + fixes/C13-locked-wide-walk.patch
   else (name, (false, false))
 
-/-- `<entry>[+lg|+lw][+fz]`: `+fz` = the tree under test has the Fill repair (fixes/C09-fill-zero-width.patch, probed by
+/-- `<entry>[+lg|+lw][+fz][@charset]`: `+fz` = the tree under test has the Fill repair (fixes/C09-fill-zero-width.patch, probed by
     `fillZWSuffix` in harness/engines/cb.go) → `DrawCfg.fillZW` -/
-def splitVariants (name : String) : String × (Bool × Bool) × Bool :=
+def splitVariants (name0 : String) : String × (Bool × Bool) × Bool :=
+  let name := (name0.splitOn "@").headD name0   -- `entry+flags@charset`: the flags precede the charset
   let (n1, fz) := if name.endsWith "+fz" then (name.dropRight 3, true) else (name, false)
   let (n2, lgw) := splitVariant n1
   (n2, lgw, fz)
